@@ -108,3 +108,48 @@ package rpc
 //@   props C06
 //@   partial bounds
 //@   requires c != nil && genOK(&c.questionID) && c.questionID.i < 1<<32-1 && M(len(c.questions)) == M(c.questionID.i)
+
+// ---------------------------------------------------------------- message parsing (PARTIAL: no index out of range,
+// no nil-map write, no failing type assertion, no explicit panic - for arbitrary message contents)
+
+//@ func Conn.parseCall -> err
+//@   props C08
+//@   partial bounds nilmap typeassert panic
+//@   requires c != nil && p != nil
+
+//@ func parseMessageTarget -> err
+//@   props C08
+//@   partial bounds nilmap typeassert panic
+//@   requires pt != nil
+
+//@ func parseTransform -> ops, err
+//@   props C08
+//@   partial bounds nilmap typeassert panic
+
+//@ func Conn.parseReturn -> pr
+//@   props C08
+//@   partial bounds nilmap typeassert panic
+//@   requires c != nil
+
+//@ func Conn.recvCap -> cl, local, err
+//@   props C08
+//@   partial bounds nilmap typeassert panic
+//@   requires c != nil
+
+//@ func Conn.recvPayload -> p, locals, err
+//@   props C08
+//@   partial bounds nilmap typeassert panic
+//@   requires c != nil
+
+// Table bookkeeping whose index safety rests on connection-wide invariants (embargo table and
+// embargo id generator grow in step; the import table exists) that are not stated here: ASSUMED
+// not to panic, so that their callers can be swept.
+//@ func Conn.embargo -> id, cl
+//@   trusted
+//@   requires c != nil
+//@   modifies *
+
+//@ func Conn.addImport -> cl
+//@   trusted
+//@   requires c != nil
+//@   modifies *
